@@ -193,7 +193,7 @@ class Renderer(object):
         if f.get("c_comments") and r.random() < 0.3:
             if r.random() < 0.3:
                 s = b""        # glued to the token before it
-            s += r.choice([b"/* c */", b"/**/", b"/* * / ** */", b"/* \"q\" { ( , ; */"]) + r.choice([b" ", b" ", b""])
+            s += r.choice([b"/* c */", b"/**/", b"/* * / ** */", b"/* \"q\" { ( , ; */", b"/** doc **/", b"/***/", b"/****/", b"/* x **/", b"/*** y ***/", b"/* a */ /* b **/", b"/* / * **/"]) + r.choice([b" ", b" ", b""])
         return s
 
     def term(self, last, nested):
